@@ -13,7 +13,7 @@ NA = {
 
 def main():
     units = load_units()
-    served = sorted({p for u in units.values() for p in u.serves})
+    served = sorted({p for u in units.values() for p in u.tagged})
     table = json.load(open(os.path.join(VERIF, 'vlib', 'levels.json')))
     checks = []
     for pid in served:
@@ -26,7 +26,7 @@ def main():
             'replay_cmd_template': f'./check {pid} --replay {{path}}',
             'engine': 'verus-contracts',
             'level_claimed': {'category': 'proof', 'text': t.get('text', 'contracts on extracted functions discharged by Verus'), 'design_ref': f'DESIGN.md section 5 ({pid})'},
-            'level_note': t.get('note', 'trusted base: /verif/prelude (A-STD, A-ICU, A-ITER, A-REFCELL, A-DISPATCH), extraction rewrites R0-R14; functions not under contract are not covered'),
+            'level_note': t.get('note', 'trusted base: /verif/prelude (A-STD, A-ICU, A-ITER, A-REFCELL, A-DISPATCH), extraction rewrites R0-R16; functions not under contract are not covered'),
             'technique': t.get('technique', 'contract-based deductive verification (Verus) of functions extracted from /repo on every run'),
         })
     na = dict(NA)
@@ -47,7 +47,7 @@ def main():
         'engines': [{'name': 'verus-contracts', 'path': '/verif/check', 'serves_properties': served,
                      'kind_free_text': 'extract real functions from /repo as text, splice contracts from /verif/units/*.vu, verify with verus 0.2026.09.13; vacuity canary + assumption scan on every run'}],
         'checks': checks,
-        'notes': 'exit 0 = every obligation of every unit serving the property discharged (modulo known_findings.txt); exit 1 = VIOLATION line(s); exit 2 = undecided (unsupported construct, lost anchor, solver resources) and never an alarm.',
+        'notes': 'exit 0 = every obligation of every unit carrying a clause for the property discharged (recorded findings are printed as KNOWN-FINDING lines); exit 1 = VIOLATION line(s); exit 2 = undecided (solver resources, unit file error, or the bounded stand-in could not run) and never an alarm. A unit that a rewording of the code put outside the verifier reach is replaced, for that run, by a bounded differential stand-in (labelled bounded, never counted as proved; DESIGN 0.9).',
         'not_applicable': [{'property_id': k, 'reason': v} for k, v in sorted(na.items()) if k not in served],
     }
     json.dump(m, open(os.path.join(VERIF, 'MANIFEST.json'), 'w'), indent=1)
